@@ -394,6 +394,9 @@ func (a *allowerContext) update(provider AuthEventProvider) {
 		a.createEvent, a.powerLevelsEvent, a.joinRuleEvent = nil, nil, nil
 	}
 	if e, _ := provider.Create(); a.createEvent == nil || a.createEvent != e {
+		// Forget what was cached for a previous create event: if the provider has no (usable)
+		// create event any more then the checks must not run against the old one.
+		a.createEvent, a.create, a.creators, a.privilegedCreators = nil, CreateContent{}, nil, false
 		if c, err := NewCreateContentFromAuthEvents(provider, a.userIDQuerier); err == nil {
 			a.createEvent = e
 			a.create = c
@@ -403,6 +406,7 @@ func (a *allowerContext) update(provider AuthEventProvider) {
 		}
 	}
 	if e, _ := provider.PowerLevels(); a.powerLevelsEvent == nil || a.powerLevelsEvent != e {
+		a.powerLevelsEvent, a.powerLevels = nil, PowerLevelContent{}
 		creator := ""
 		if a.createEvent != nil {
 			creator = string(a.createEvent.SenderID())
@@ -413,6 +417,7 @@ func (a *allowerContext) update(provider AuthEventProvider) {
 		}
 	}
 	if e, _ := provider.JoinRules(); a.joinRuleEvent == nil || a.joinRuleEvent != e {
+		a.joinRuleEvent, a.joinRule = nil, JoinRuleContent{}
 		if j, err := NewJoinRuleContentFromAuthEvents(provider); err == nil {
 			a.joinRuleEvent, _ = provider.JoinRules()
 			a.joinRule = j
